@@ -13,8 +13,11 @@ from wesym.contracts import base as cbase  # noqa: E402
 
 REPO = wprog.REPO
 MOD = 'berty.tech/weshnet/v2'
-EVIDENCE_DIR = os.path.join(ROOT, 'evidence')
-REPLAY_DIR = os.path.join(ROOT, 'replays')
+# VERIF_OUT (with VERIF_REPO) is used only when a seeded change is tried in a scratch worktree, so that such a run
+# does not overwrite the evidence of /repo; registered commands never set either variable.
+_OUT = os.environ.get('VERIF_OUT', ROOT)
+EVIDENCE_DIR = os.path.join(_OUT, 'evidence')
+REPLAY_DIR = os.path.join(_OUT, 'replays')
 KNOWN = os.path.join(ROOT, 'known_findings.json')
 
 
